@@ -659,7 +659,7 @@ class AnsiString:
             (start, end) values where accompanying formats should be applied
         '''
         extend_formatting = True
-        match = re.fullmatch(r'(?:(.?)([+-]?)<)?([0-9]*)', string_format)
+        match = re.fullmatch(r'(?:(.?)([+-]?)<)?([0-9]*)', string_format, re.DOTALL)
         if match:
             # Left justify
             num = match.group(3)
@@ -676,7 +676,7 @@ class AnsiString:
                 self.apply_formatting(settings)
             return
 
-        match = re.fullmatch(r'(.?)([+-]?)>([0-9]*)', string_format)
+        match = re.fullmatch(r'(.?)([+-]?)>([0-9]*)', string_format, re.DOTALL)
         if match:
             # Right justify
             num = match.group(3)
@@ -693,7 +693,7 @@ class AnsiString:
                 self.apply_formatting(settings)
             return
 
-        match = re.fullmatch(r'(.?)([+-]?)\^([0-9]*)', string_format)
+        match = re.fullmatch(r'(.?)([+-]?)\^([0-9]*)', string_format, re.DOTALL)
         if match:
             # Center
             num = match.group(3)
@@ -775,7 +775,7 @@ class AnsiString:
 
             # This will allow a colon to be a fill character based on the expected format; a fill character and
             # flag are only present together with an alignment character (":" alone is an empty string_format)
-            format_match = re.fullmatch(r'((?:.?[-\+]?[<>\^])?[0-9]*)(:.*)?', format_spec)
+            format_match = re.fullmatch(r'((?:.?[-\+]?[<>\^])?[0-9]*)(:.*)?', format_spec, re.DOTALL)
 
             if not format_match:
                 format_parts = [format_spec]
